@@ -89,7 +89,8 @@ void AsmContext::init()
   // Default to MSP430: a source without a CPU directive is assembled with
   // exactly the settings of the msp430 entry of cpu_list[] (in both passes),
   // so everything a CPU directive changed in the previous pass is undone.
-  set_cpu("msp430");
+  // A build without MSP430 support starts with the first CPU it has.
+  if (set_cpu("msp430") != 0) { set_cpu(0); }
   segment = 0;
 
   address           = 0;
